@@ -46,4 +46,13 @@ def logCall (c : CallCtx) (start : Nat) (sev : Int) : List (List WEvent) × Nat 
     else ([ev], next)
   else ([], start)
 
+/-- A sequence of user calls on one logger: the attempt counter (the position in the failure
+    schedule) is threaded from call to call; nothing else is carried over. One entry per call. -/
+def runCalls (c : CallCtx) : Nat → List Int → List (List (List WEvent)) × Nat
+  | start, [] => ([], start)
+  | start, sev :: rest =>
+    let r := logCall c start sev
+    let m := runCalls c r.2 rest
+    (r.1 :: m.1, m.2)
+
 end Logg
